@@ -249,11 +249,16 @@ func handleShareMemoryByMemFd(s *Session, h header) error {
 	//4.mapping share memory
 	qm, err := mappingQueueManagerMemfd(queuePath, queueFd)
 	if err != nil {
+		// the received descriptors are ours now: nobody else closes them
+		syscall.Close(queueFd)
+		syscall.Close(bufferFd)
 		return err
 	}
 	s.queueManager = qm
 	bm, err := getGlobalBufferManagerWithMemFd(bufferPath, bufferFd, 0, false, nil)
 	if err != nil {
+		// (queueFd belongs to the queue manager, which the caller unmaps)
+		syscall.Close(bufferFd)
 		return err
 	}
 
